@@ -366,6 +366,12 @@ func (p *Prog) eval(fr *Frame, v ssa.Value, depth int) Val {
 			if e == v {
 				continue
 			}
+			// a nil operand names no object: whatever is done through the phi is done through one of the others
+			if cn, isC := e.(*ssa.Const); isC && cn.IsNil() && len(x.Edges) > 1 {
+				if _, isPtr := x.Type().Underlying().(*types.Pointer); isPtr {
+					continue
+				}
+			}
 			ev := p.eval(fr, e, depth+1)
 			if ev.K == KUnknown {
 				continue
